@@ -912,6 +912,14 @@ RANK5 = [
     ("cusped-[3,4,3,4]", linear(3, 4, 3, 4)), ("I2(inf)xH3", from_pairs(5, {(0, 1): 0, (2, 3): 5, (3, 4): 3})),
     ("all-3", from_pairs(5, {}, default=3)), ("affine-F4", linear(3, 3, 4, 3)),
     ("pentagon-right-angled", cyclic(0, 0, 0, 0, 0)),
+    # more than 64 small (elementary) roots but automata small enough for the
+    # quick deep-equivalence budget (73 / 68 / 75 roots, 1191 / 1747 / 1070
+    # states): where a state code packed into 64 bits runs out (seeded change
+    # C07-r6-2; its shortest witnesses are 15 letters long, far beyond the
+    # exhaustive lengths -- the product search of deep-equivalence finds them)
+    ("many-small-roots-73", ((1, 3, 3, 2, 5), (3, 1, 2, 6, 2), (3, 2, 1, 5, 2), (2, 6, 5, 1, 3), (5, 2, 2, 3, 1))),
+    ("many-small-roots-68", ((1, 3, 2, 5, 2), (3, 1, 5, 2, 2), (2, 5, 1, 2, 5), (5, 2, 2, 1, 3), (2, 2, 5, 3, 1))),
+    ("many-small-roots-75", ((1, 2, 3, 5, 3), (2, 1, 5, 3, 5), (3, 5, 1, 2, 4), (5, 3, 2, 1, 2), (3, 5, 4, 2, 1))),
 ]
 
 
@@ -986,6 +994,11 @@ def wl_rank5(run, rng, idx):
         slow = False
         name, M = "random", random_matrix(rng, 5)
     run.note_class("rank5-source", name)
+    if name.startswith("many-small-roots") and not deep:
+        # quick tier: these are here for the deep-equivalence postcondition on the
+        # constructed automata; short exhaustive lengths only
+        study_matrix(run, rng, M, L_exh=3, L_set=3, L_img=3, sample=False, routes=("matrix",))
+        return
     study_matrix(run, rng, M, L_exh=4 if not deep else 5, L_set=5 if not deep else 6,
                  L_img=4 if not deep else 5, sample=idx < 1,
                  routes=("matrix", "diagram") if (deep or idx % 2 == 0) and not slow
@@ -1315,7 +1328,7 @@ WORKLOADS = [
     Workload("rank3", wl_rank3, quick=84, thorough=343),
     Workload("rank4", wl_rank4, quick=34, thorough=400),
     Workload("rank4-all-orbits", wl_rank4_orbits, quick=0, thorough=(7 ** 6 + BLOCK4 - 1) // BLOCK4),
-    Workload("rank5", wl_rank5, quick=16, thorough=160),
+    Workload("rank5", wl_rank5, quick=19, thorough=160),
     Workload("long-words", wl_long_words, quick=20, thorough=640),
     Workload("matrix-fn", wl_matrix_fn, quick=30, thorough=320),
     Workload("tutorial", wl_tutorial, quick=4, thorough=16),
